@@ -191,14 +191,17 @@ _NATIVE_METHODS = {
     set: {"add", "discard", "remove", "copy", "union", "intersection", "clear", "pop"},
     frozenset: {"union", "intersection"},
     str: {"lower", "upper", "startswith", "endswith", "split", "join", "strip", "format", "replace", "encode",
-          "isdigit", "find", "index"},
-    bytes: {"decode", "hex", "index", "find", "startswith", "endswith"},
+          "isdigit", "find", "index", "partition", "rpartition", "rsplit", "lstrip", "rstrip", "title", "capitalize",
+          "casefold", "isalpha", "isalnum", "zfill", "removeprefix", "removesuffix", "count", "splitlines", "rfind",
+          "isidentifier", "isspace", "isupper", "islower", "ljust", "rjust", "center", "swapcase", "translate"},
+    bytes: {"decode", "hex", "index", "find", "startswith", "endswith", "rfind", "count", "split", "partition", "rstrip",
+            "lstrip", "strip", "replace", "join"},
     int: {"to_bytes", "bit_length", "is_integer"},
     float: {"is_integer"},
     bool: {"to_bytes", "bit_length"},
 }
 
-_PURE_STDLIB = {"struct", "bisect", "operator", "math"}
+_PURE_STDLIB = {"struct", "bisect", "operator", "math", "re", "itertools", "functools", "string"}
 
 _BINOPS = {
     ast.Add: _op.add, ast.Sub: _op.sub, ast.Mult: _op.mul, ast.FloorDiv: _op.floordiv, ast.Mod: _op.mod,
